@@ -145,6 +145,14 @@ CHECKS.update({
    note="Trusted: python hashlib; pylib/gqlref.py for document equality.", ref="3/C26"),
 })
 
+EW = "watch_tools"
+CHECKS.update({
+ "C20": dict(engine=EW, level="exploration", technique="runtime monitoring: (a) in-process replay of seeded edit scripts (real syscalls on a temp tree, debounced events synthesised from shapes recorded with the real debouncer, batched windows, deferred batches, interleaved garbage collections) through the real categorisation/update/compile path vs a fresh CompilerState after every step - artifact paths+bytes, diagnostics set, artifact directory on disk; failing scripts shrunk; (b) real isograph_cli --watch subprocesses edited with real syscalls, compared with a batch compile of a copy, ordering enforced by a probe-file recompile, liveness checked; thorough re-measures the event shapes",
+   text="Held on N scripts / M step comparisons (sim) and K real watch sessions: after every event batch the incremental state's artifacts, diagnostics and artifact directory equalled a fresh compile and the watcher kept running, except for six listed known-finding signatures (schema removed/replaced; extension removed/replaced x3; non-UTF-8 source file; panic inside notify-debouncer-full). Seven defects found by this check were fixed.",
+   note="Trusted: the recorded inotify event shapes (rechecked in thorough); that path-disjoint edits of one debounce window concatenate; diagnostic locations compared only by message where hash order decides the location. Not covered: config-file edits, schema inside project_root, symlinks, non-Linux backends, the start-up window before watches exist.", ref="3/C20"),
+})
+ENGINES += [{"name": EW, "path": "harness/watch_tools", "serves_properties": ["C20"], "kind_free_text": "Rust tool replaying generated file-system edit scripts against a long-lived CompilerState exactly as handle_watch_command's loop does (hook H5 categorize_and_filter_events -> update_sources -> compile -> gc), with synthesised notify events from recorded real shapes, compared with a fresh CompilerState after every step; plus real isograph_cli --watch sessions"}]
+
 import subprocess
 HOOK_COMMITS = [l.split()[0] for l in subprocess.run(["git", "-C", "/repo", "log", "--format=%h %s"], capture_output=True, text=True).stdout.splitlines() if "verif hook" in l]
 
